@@ -20,7 +20,7 @@
    and sources are compared on the real code by the search oracle (write, read
    back, write again; same description; same feed impedance), not modelled. *)
 From Coq Require Import ZArith List Bool Arith Permutation.
-From PM Require Import Model.Options Proofs.OptionsP Model.Objects Proofs.ObjectsP Model.LoadOrder Proofs.LoadOrderP Model.SourceOpts Proofs.SourceOptsP.
+From PM Require Import Model.Options Proofs.OptionsP Model.Objects Proofs.ObjectsP Model.LoadOrder Proofs.LoadOrderP Model.SourceOpts Proofs.SourceOptsP Model.MediaOpts Proofs.MediaOptsP.
 Import ListNotations.
 Open Scope nat_scope.
 
@@ -114,3 +114,26 @@ Theorem C15_sources_before_the_repair_refuted :
   read_srcs Z 1%Z (flat_map (write_src_before (Z.eqb 1)) [mkSrc 2%Z (SAbs 0) false; mkSrc 1%Z (SAbs 1) false]) = None.
 Proof. exact before_refuted. Qed.
 Print Assumptions C15_sources_before_the_repair_refuted.
+
+(* media (Model/MediaOpts.v, tied to Medium.as_cmdline and to the part of main that builds the media by the correspondence
+   stage `media`): for every media structure the program can hold - any number of media, any coordinates including one
+   given to the outermost medium, either boundary, with or without a radial screen - the written options are accepted and
+   give the same media, and writing them again gives the same options *)
+Theorem C15_media_round_trip :
+  forall e : env, wf e -> MediaOpts.read (write e) = Some e.
+Proof. exact media_round_trip_proof. Qed.
+Print Assumptions C15_media_round_trip.
+
+Theorem C15_media_fixpoint :
+  forall e : env, wf e -> match MediaOpts.read (write e) with Some e' => write e' = write e | None => False end.
+Proof. exact media_fixpoint_proof. Qed.
+Print Assumptions C15_media_fixpoint.
+
+(* the writer before the repair (commit 9469538) never wrote the coordinate of the outermost medium *)
+Theorem C15_media_old_writer_refuted :
+  exists e : env, wf e /\ MediaOpts.read (write_old e) <> Some e.
+Proof. exact old_writer_refuted_proof. Qed.
+Print Assumptions C15_media_old_writer_refuted.
+
+Example C15_media_wf_example : wf (mkE [mkM 13 5 0 3; mkM 5 1 (-1) 50] true (Some (16%nat, 2)))%Z.
+Proof. exact read_wf_example. Qed.
